@@ -159,7 +159,7 @@ CLAIMS = {
                 "configuration), C17_ctor. Correspondence: configuration streams (constructor with names/objects/None x tolerance, "
                 "set_merge with every argument subset, setters, reset) compared on criterion/tolerance/threshold/branching factor and "
                 "clustering after every call; oracle re-checks symmetry, frame and atomicity on the real objects."
-                + GEN.format(src="the configuration part of BitBirch in bitbirch.py (__init__ up to the first statement that does not concern threshold / branching_factor / _merge_accept_fn, the tolerance and merge_criterion properties, set_merge) with get_merge_accept_fn; theorems gen_init, gen_set_merge in BBProofs/GenEq4.lean", prop="C17"),
+                + GEN.format(src="the configuration part of BitBirch in bitbirch.py (__init__ up to the first statement that does not concern threshold / branching_factor / _merge_accept_fn, the tolerance and merge_criterion properties, set_merge) with get_merge_accept_fn; theorems gen_init, gen_set_merge in BBProofs/GenEq4.lean; and reset: C17_code_reset_frame", prop="C17"),
         "note": TB + "Models the repaired logic (fix b75235c); the tolerance lives in the merge-function object, so switching to a criterion "
                 "without tolerance and back yields the default. Not modelled: one merge-function OBJECT shared by two estimators (aliasing), "
                 "the discouraged global set_merge.",
